@@ -385,21 +385,28 @@ var findCheckMsgs = []string{"unknown flag", "KeysOnly conflicts with other opti
 // the state of height nextHeight-1: "invalid:<i>" (option check i failed), "fault", "ok:[items]".
 func runFind(bc *core.Blockchain, e *neotest.Executor, script []byte, nextHeight uint32, historic bool) string {
 	return hx.Safe(func() string {
-		tx := transaction.New(script, 0)
-		tx.Signers = []transaction.Signer{{Account: e.Validator.ScriptHash(), Scopes: transaction.Global}}
-		tx.ValidUntilBlock = bc.BlockHeight() + 1
-		var (
-			ic  *interop.Context
-			err error
-		)
-		if historic {
-			ic, err = bc.GetTestHistoricVM(trigger.Application, tx, nextHeight)
-		} else {
-			ic, err = bc.GetTestVM(trigger.Application, tx, nil)
-		}
+		ic, err := newCtx(bc, e, script, nextHeight, historic)
 		if err != nil {
 			return "err:" + err.Error()
 		}
+		return execFind(ic, script)
+	})
+}
+
+// newCtx only CREATES the invocation context (live, or historic on the state of nextHeight-1); the
+// script is executed later with execFind / execGet — possibly after further blocks were stored.
+func newCtx(bc *core.Blockchain, e *neotest.Executor, script []byte, nextHeight uint32, historic bool) (*interop.Context, error) {
+	tx := transaction.New(script, 0)
+	tx.Signers = []transaction.Signer{{Account: e.Validator.ScriptHash(), Scopes: transaction.Global}}
+	tx.ValidUntilBlock = bc.BlockHeight() + 1
+	if historic {
+		return bc.GetTestHistoricVM(trigger.Application, tx, nextHeight)
+	}
+	return bc.GetTestVM(trigger.Application, tx, nil)
+}
+
+func execFind(ic *interop.Context, script []byte) string {
+	return hx.Safe(func() string {
 		defer ic.Finalize()
 		ic.VM.LoadWithFlags(script, callflag.All)
 		rerr := ic.VM.Run()
@@ -426,6 +433,27 @@ func runFind(bc *core.Blockchain, e *neotest.Executor, script []byte, nextHeight
 			s[i] = itemCanon(arr[i])
 		}
 		return "ok:[" + strings.Join(s, ",") + "]"
+	})
+}
+
+// execGet runs a `get key` script in an earlier-created context: the value hex, "none", or "fault".
+func execGet(ic *interop.Context, script []byte) string {
+	return hx.Safe(func() string {
+		defer ic.Finalize()
+		ic.VM.LoadWithFlags(script, callflag.All)
+		_ = ic.VM.Run()
+		if ic.VM.State() != vmstate.Halt || ic.VM.Estack().Len() != 1 {
+			return "fault"
+		}
+		it := ic.VM.Estack().Pop().Item()
+		if it.Type() == stackitem.AnyT {
+			return "none"
+		}
+		b, err := it.TryBytes()
+		if err != nil {
+			return "fault"
+		}
+		return hx.Hex(b)
 	})
 }
 
@@ -688,10 +716,20 @@ func main() {
 
 func runCase(o *hx.Out, f *hx.Flags, k int, t *tb) {
 	r := prng.ForCase(f.Seed, k)
+	// case 0 is the fixed corpus case (the same for every seed): all states kept, no reset, a deferred
+	// historic evaluation (context created, later blocks rewrite what it reads, then executed) after
+	// every third block
+	corpus := k == 0
+	if corpus {
+		r = prng.ForCase(0xC03, 0)
+	}
 	// node-local state retention mode: 0 = keep every state (default), 1 = RemoveUntraceableBlocks
 	// (reference-counted MPT with GC flags; all heights of a short chain are still retained),
 	// 2 = KeepOnlyLatestState (reference-counted, only the latest root is readable)
 	stMode := r.Weighted([]int{5, 3, 2})
+	if corpus {
+		stMode = 0
+	}
 	o.Count(fmt.Sprintf("state-mode:%d", stMode))
 	// the node's database outlives the Blockchain object (restart / reset scenarios)
 	st := &keepStore{MemoryStore: storage.NewMemoryStore()}
@@ -887,6 +925,18 @@ func runCase(o *hx.Out, f *hx.Flags, k int, t *tb) {
 	nBlocks := r.Range(8, 25)
 	live := map[string]bool{}
 	var usedKeys [][]byte
+	commitBlock := func(txs []*transaction.Transaction) {
+		e.AddNewBlock(t, txs...)
+		record()
+		h := bc.BlockHeight()
+		if recs[h] == nil {
+			return
+		}
+		cur := recs[h].d
+		emitBatch(h, prev, cur)
+		emitFinds(h)
+		prev = cur
+	}
 	addRandomBlock := func() {
 		ntx := r.Range(0, 4)
 		var txs []*transaction.Transaction
@@ -930,19 +980,126 @@ func runCase(o *hx.Out, f *hx.Flags, k int, t *tb) {
 			txs = append(txs, e.PrepareInvocation(t, w.Bytes(), []neotest.Signer{e.Committee}))
 			o.Count("op:designate")
 		}
-		e.AddNewBlock(t, txs...)
-		record()
-		h := bc.BlockHeight()
-		if recs[h] == nil {
+		commitBlock(txs)
+	}
+	// deferredProbe: historic contexts are CREATED now (for the tip height and for an older one), then
+	// blocks that delete / rewrite / create exactly the keys the scripts read are stored, and only
+	// then the scripts are executed in the earlier-created contexts. A historic answer for height h
+	// must be the committed map of h whenever it is evaluated (Lean: historic_view_stable).
+	deferredProbe := func() {
+		tip := bc.BlockHeight()
+		if stMode == 2 || tip < deployedAt || recs[tip] == nil {
 			return
 		}
-		cur := recs[h].d
-		emitBatch(h, prev, cur)
-		emitFinds(h)
-		prev = cur
+		hs := []uint32{tip}
+		if tip > deployedAt {
+			if h := uint32(r.Range(deployedAt, int(tip)-1)); recs[h] != nil {
+				hs = append(hs, h)
+			}
+		}
+		type pending struct {
+			h      uint32
+			fi     int // index into finds, -1: a get
+			key    []byte
+			script []byte
+			ic     *interop.Context
+		}
+		var pend []pending
+		var touch [][]byte // keys of contract S the pending scripts read
+		var newKeys [][]byte
+		pre := string(idKey(ids[0], nil))
+		for _, h := range hs {
+			rec := recs[h]
+			// finds: the ones that return items at h first, one with own writes, then any
+			var pick []int
+			for i, fr := range finds {
+				if fr.id == ids[0] && strings.HasPrefix(rec.finds[i], "ok:[") && rec.finds[i] != "ok:[]" && len(pick) < 4 {
+					pick = append(pick, i)
+				}
+			}
+			pick = append(pick, 36+r.Intn(8), r.Intn(36))
+			for _, i := range pick {
+				pend = append(pend, pending{h: h, fi: i, script: finds[i].script})
+				newKeys = append(newKeys, append(bytes.Clone(finds[i].prefix), 0x12))
+			}
+			// gets: present keys of S at h and an absent one
+			var present [][]byte
+			for _, kk := range sortedKeys(rec.d) {
+				if strings.HasPrefix(kk, pre) {
+					present = append(present, []byte(kk[4:]))
+				}
+			}
+			var gk [][]byte
+			for i := 0; i < 3 && len(present) > 0; i++ {
+				gk = append(gk, present[r.Intn(len(present))])
+			}
+			gk = append(gk, genKey(r, 1))
+			for _, key := range gk {
+				pend = append(pend, pending{h: h, fi: -1, key: key, script: callScript(c.Hash, "get", key)})
+			}
+			touch = append(touch, gk...)
+			if len(present) > 0 {
+				touch = append(touch, present[0], present[len(present)-1])
+			}
+		}
+		for i := range pend {
+			ic, err := newCtx(bc, e, pend[i].script, pend[i].h+1, true)
+			if err != nil {
+				o.Fail("deferred-context", k, "GetTestHistoricVM for height %d at tip %d: %v", pend[i].h, tip, err)
+				return
+			}
+			pend[i].ic = ic
+		}
+		// the blocks in between
+		w := io.NewBufBinWriter()
+		for i, key := range touch {
+			if i%2 == 0 {
+				emit.AppCall(w.BinWriter, c.Hash, "del", callflag.All, key)
+			} else {
+				emit.AppCall(w.BinWriter, c.Hash, "put", callflag.All, key, append([]byte{0xD0}, r.Bytes(2)...))
+			}
+		}
+		for _, key := range newKeys {
+			emit.AppCall(w.BinWriter, c.Hash, "put", callflag.All, key, []byte{0xD1})
+		}
+		commitBlock([]*transaction.Transaction{e.PrepareInvocation(t, w.Bytes(), []neotest.Signer{e.Validator})})
+		for i := r.Range(0, 2); i > 0; i-- {
+			addRandomBlock()
+		}
+		// now evaluate
+		for _, pd := range pend {
+			rec := recs[pd.h]
+			which := "older"
+			if pd.h == tip {
+				which = "tip"
+			}
+			if pd.fi >= 0 {
+				got := execFind(pd.ic, pd.script)
+				o.Line("d"+finds[pd.fi].line(fmt.Sprint(pd.h)), got)
+				if got != rec.finds[pd.fi] {
+					o.Fail("historic-deferred-mismatch:find", k, "context for height %d created at tip %d, evaluated at %d: %s gives %s, the node answered %s at height %d", pd.h, tip, bc.BlockHeight(), finds[pd.fi].line("h"), got, rec.finds[pd.fi], pd.h)
+				}
+				o.Count("deferred:find-" + which)
+			} else {
+				got := execGet(pd.ic, pd.script)
+				mk := idKey(ids[0], pd.key)
+				o.Line(fmt.Sprintf("dget %d %s", pd.h, hx.Hex(mk)), got)
+				want := "none"
+				if v, ok := rec.d[string(mk)]; ok {
+					want = hx.Hex(v)
+				}
+				if got != want {
+					o.Fail("historic-deferred-mismatch:get", k, "context for height %d created at tip %d, evaluated at %d: get %x gives %s, storage of height %d had %s", pd.h, tip, bc.BlockHeight(), pd.key, got, pd.h, want)
+				}
+				o.Count("deferred:get-" + which)
+			}
+		}
 	}
 	for b := 0; b < nBlocks; b++ {
 		addRandomBlock()
+		if b == nBlocks/2 || r.Chance(1, 6) || (corpus && b%3 == 0) {
+			deferredProbe()
+		}
 	}
 	// stateRoots: GetStateRoot for every height up to a few above the top, and the module's own
 	// idea of the current local root (through the driver: the model of the per-height records)
@@ -1007,7 +1164,7 @@ func runCase(o *hx.Out, f *hx.Flags, k int, t *tb) {
 		return
 	}
 	scenario := 0
-	if stMode != 2 {
+	if stMode != 2 && !corpus {
 		scenario = r.Weighted([]int{4, 3, 4})
 	}
 	switch scenario {
